@@ -359,6 +359,7 @@ package chain
 //@   assigns pointee:txn, elems:types.V2SiacoinInput, elems:types.V2SiafundInput, elems:types.V2FileContractRevision, elems:types.V2FileContractResolution, elems:types.Hash256, heap:types.V2StorageProof
 //@   precall [leaf-bound] (called("ApplyBlock") && numLeaves == callres("ApplyBlock", 0).Elements.NumLeaves)
 //@              || (!mayHaveCalled("ApplyBlock") && called("RevertBlock") && numLeaves == callarg("RevertBlock", 0).Elements.NumLeaves)
+//@              || ((infunc("applyPoolUpdate") || infunc("revertPoolUpdate")) && numLeaves == callerlocal("cs").Elements.NumLeaves)
 //@ extern (*types.V2Transaction).EncodeTo
 //@   assigns nothing
 //@ extern (*consensus.ElementAccumulator).ValidateTransactionElements pure
@@ -558,12 +559,22 @@ package chain
 //@   && (forall id types.BlockID :: { id in supp } (id in supp) ==> (id in states) && (id in body))
 //
 // The pool helpers never touch the tip or the store (assumed here; they are pool code, C05/C13).
-//@ func (*Manager).revertPoolUpdate
+// They are handed the state the update leads to -- the one given to the store with the update
+// (the new state when applying, the parent state when reverting) -- and bound the leaf indices of
+// pooled transactions by that state's accumulator (the third way to satisfy updateTxnProofs'
+// call-site condition; the pool filtering itself is not under contract).
+//@ func (*Manager).revertPoolUpdate props C05
+//@   precall [parent-state] called("Store.RevertBlock") && same(cs, callarg("Store.RevertBlock", 1)) && same(cru, callarg("Store.RevertBlock", 2))
+//@   requires m != nil
+//@   frame assumed
 //@   assigns heap:Manager, elems:types.V2Transaction, elems:types.V2SiacoinInput, elems:types.V2SiafundInput, elems:types.V2FileContractRevision, elems:types.V2FileContractResolution, elems:types.Hash256, heap:types.V2StorageProof
-//@   ensures m.tipState == old(m.tipState) && m.store == old(m.store) && m.expiringFileContractOrder == old(m.expiringFileContractOrder)
-//@ func (*Manager).applyPoolUpdate
+//@   ensures [assumed:tip-untouched] m.tipState == old(m.tipState) && m.store == old(m.store) && m.expiringFileContractOrder == old(m.expiringFileContractOrder)
+//@ func (*Manager).applyPoolUpdate props C05
+//@   precall [new-state] called("Store.ApplyBlock") && same(cs, callarg("Store.ApplyBlock", 1)) && same(cau, callarg("Store.ApplyBlock", 2))
+//@   requires m != nil
+//@   frame assumed
 //@   assigns heap:Manager, elems:types.V2Transaction, elems:types.V2SiacoinInput, elems:types.V2SiafundInput, elems:types.V2FileContractRevision, elems:types.V2FileContractResolution, elems:types.Hash256, heap:types.V2StorageProof
-//@   ensures m.tipState == old(m.tipState) && m.store == old(m.store) && m.expiringFileContractOrder == old(m.expiringFileContractOrder)
+//@   ensures [assumed:tip-untouched] m.tipState == old(m.tipState) && m.store == old(m.store) && m.expiringFileContractOrder == old(m.expiringFileContractOrder)
 //@ func (*Manager).overwriteExpirations
 //@   assigns elems:types.FileContractElement, heap:consensus.V1BlockSupplement
 //
